@@ -1,10 +1,9 @@
-import MuscleModel.Wildcard.Proofs4
-import MuscleModel.Wildcard.Parse
+import MuscleModel.Wildcard.Proofs5
 
 /-!
 # C15 — Wildcard patterns match exactly the strings their documented syntax denotes
 
-Property theorems only (lemmas: `Wildcard/Proofs.lean`, `Proofs2.lean`, `Proofs3.lean`, `Proofs4.lean`).
+Property theorems only (lemmas: `Wildcard/Proofs.lean`, `Proofs2.lean`, `Proofs3.lean`, `Proofs4.lean`, `Proofs5.lean`; table facts: `Tables.lean`).
 
 * Specification: `Pat.Matches` / `Top.denote` (documented meaning of a pattern tree), `Top.render` (its text).
 * Code mirrors (`Wildcard/Code.lean`): `translateLoop`/`setPattern` = `StringMatcher::SetPattern`,
@@ -16,8 +15,12 @@ Property theorems only (lemmas: `Wildcard/Proofs.lean`, `Proofs2.lean`, `Proofs3
 `WF` = inside the documented grammar: unescaped literals are plain characters, classes are non-empty and contain
 none of `] [ ^ - \ , . + * ?` as members, precedence is respected, and the body does not begin with an unescaped
 `~`, backtick or `<`.  Outside of it the code deviates from the documentation in three known ways, each kept as
-a corpus trigger and reported by the direct oracle: F9 (range subjects), "tick" (leading backtick not escaped),
-"class" (the translation is not class-aware).
+a corpus trigger and reported by the direct oracle: F9 (range subjects) and "class" (the translation is not
+class-aware; `class_translation_iff` below says exactly when it is harmless).  A third one, "tick" (leading backtick
+not escaped by `EscapeRegexTokens`), has been fixed in /repo; its trigger stays in the corpus as a regression case.
+The `IsRegexToken` table and the list of characters `SetPattern` keeps a backslash in front of are not typed in:
+they are regenerated from /repo on every run (`Muscle.Gen.*`) and every fact the proofs use about them is
+re-derived from the generated tables (`Wildcard/Tables.lean`).
 -/
 
 set_option linter.unusedSimpArgs false
@@ -69,6 +72,27 @@ theorem match_spec (libc : Libc) (hg : GlibcOK libc) (neg : Bool) (p : Pat) (h :
   simp only [matchCompiled, h1, h2, h3, hf, hd, List.isEmpty_nil, if_true, Top.denote]
   cases neg <;> cases p.denote s <;> rfl
 
+/-- Finding "class", stated precisely on the model.  The loop of `SetPattern` does not know that it is inside
+    `[..]`; it emits the text of a (backslash-free) class unchanged — so that glibc sees the class the user wrote —
+    if and only if no member or range bound is one of `, . + * ?`.  With one of them the class handed to `regcomp`
+    is a different one (`[a,b]` becomes `[a|b]`, `[?]` becomes `[.]`: examples below). -/
+theorem class_translation_iff (neg : Bool) (items : List ClsItem) (rest : Bytes) (hbs : cBs ∉ renderItems items) :
+    translateLoop false ((Pat.cls neg items).render ++ rest) = (Pat.cls neg items).render ++ translateLoop false rest
+      ↔ ∀ c ∈ renderItems items, c ≠ cComma ∧ c ≠ cDot ∧ c ≠ cPlus ∧ c ≠ cStar ∧ c ≠ cQm := by
+  have hbs' : cBs ∉ (Pat.cls neg items).render := by
+    cases neg <;> simp [Pat.render, hbs] <;> decide
+  rw [translateLoop_fixes_iff _ rest hbs']
+  rw [cls_render_all_pass, List.all_eq_true]
+  constructor
+  · intro h c hc
+    have := h c hc
+    simp only [passThru, Bool.not_eq_true', Bool.or_eq_false_iff, beq_eq_false_iff_ne, ne_eq] at this
+    exact ⟨this.1.1.1.1.1, this.1.1.1.1.2, this.1.1.1.2, this.1.1.2, this.1.2⟩
+  · intro h c hc
+    obtain ⟨h1, h2, h3, h4, h5⟩ := h c hc
+    have h6 : c ≠ cBs := fun e => hbs (e ▸ hc)
+    simp [passThru, h1, h2, h3, h4, h5, h6]
+
 /-- What `Match` does with a range list, exactly (this is finding F9: only the leading run of digits of the
     subject is looked at, and its value is reduced modulo 2^32). -/
 theorem range_spec_code (rs : List (Nat × Nat)) (s : Bytes) :
@@ -115,29 +139,29 @@ theorem unescape_escape (s : Bytes) : unescape (escape s) = s :=
   unescapeAux_escapeAux s true
 
 /-- `EscapeRegexTokens(s)` is the text of a documented pattern that denotes `s` and nothing else — for every
-    NUL-free string that does not start with a backtick (finding "tick": the backtick is not escaped). -/
-theorem escape_exact (s : Bytes) (h0 : ∀ c ∈ s, c ≠ 0) (htick : s.head? ≠ some cTick) :
+    NUL-free string (a C string).  (Before the fix "EscapeRegexTokens() escapes a leading backtick" this needed the
+    hypothesis that `s` does not start with a backtick; the regression case is corpus/C15/wc-known-tick.ops.) -/
+theorem escape_exact (s : Bytes) (h0 : ∀ c ∈ s, c ≠ 0) :
     ∃ p : Pat, (Top.pat false p).WF = true ∧ (Top.pat false p).render = escape s ∧
       ∀ t, (Top.pat false p).denote t = true ↔ t = s := by
   refine ⟨litsOf true s, ?_, ?_, ?_⟩
   · simp only [Top.WF, Bool.and_eq_true]
-    exact ⟨litsOf_WF s h0 true, by rw [litsOf_render]; exact escape_firstOK s htick⟩
+    exact ⟨litsOf_WF s h0 true, by rw [litsOf_render]; exact escape_firstOK s⟩
   · simp [Top.render, litsOf_render, escape]
   · intro t
     simp only [Top.denote, Bool.bne_false, denote_iff]
     exact litsOf_matches s true t
 
 /-- …hence, with glibc trusted, the real `Match` on the escaped pattern accepts `s` and no other string. -/
-theorem escape_exact_code (libc : Libc) (hg : GlibcOK libc) (s : Bytes) (h0 : ∀ c ∈ s, c ≠ 0)
-    (htick : s.head? ≠ some cTick) (t : Bytes) :
+theorem escape_exact_code (libc : Libc) (hg : GlibcOK libc) (s : Bytes) (h0 : ∀ c ∈ s, c ≠ 0) (t : Bytes) :
     matchCompiled libc (setPattern (escape s)) t = true ↔ t = s := by
-  obtain ⟨p, hwf, hr, hd⟩ := escape_exact s h0 htick
+  obtain ⟨p, hwf, hr, hd⟩ := escape_exact s h0
   rw [← hr, match_spec libc hg false p hwf t]
   exact hd t
 
 /-- …and the escaped pattern is reported single-valued (`IsPatternUnique`). -/
-theorem escape_single_valued (s : Bytes) (htick : s.head? ≠ some cTick) : canMatchMultiple (escape s) = false :=
-  canMatchMultiple_escape s htick
+theorem escape_single_valued (s : Bytes) : canMatchMultiple (escape s) = false :=
+  canMatchMultiple_escape s
 
 /-- A documented pattern that `CanWildcardStringMatchMultipleValues` calls single-valued denotes exactly one
     string: its own text with the escapes removed (what the hash-lookup fast path of tree traversal looks up). -/
@@ -195,6 +219,14 @@ theorem driver_prediction (libc : Libc) (hg : GlibcOK libc) (pat : Bytes) (neg :
     · cases h
   · cases h
 
+/-- The driver's pattern parser is sound for every input: whatever tree it returns renders back to exactly the
+    text it was given and has a well-formed body (the prefix-character condition `firstOK` of `Top.WF` is checked
+    separately by `inGrammar`).  Completeness (`parseTop (render t) = some t`) is not proved: a text the parser
+    wrongly rejects only costs a `?` (counted in the evidence), never a wrong prediction. -/
+theorem parseTop_sound (pat : Bytes) (t : Top) (h : parseTop pat = some t) :
+    t.render = pat ∧ ∃ neg p, t = .pat neg p ∧ p.WF = true :=
+  parseTop_sound_aux pat t h
+
 /-! ## Non-vacuity -/
 
 /-- `~(a|?b[^0-1])*\*` : every constructor; well-formed; the text is what the generator would print -/
@@ -229,7 +261,14 @@ example : matchRange [(5, 7)] [54, 120] = true ∧ rangeDenote [.span (some 5) (
 example : matchRange [(5, 7)] [48, 54] = true ∧ rangeDenote [.span (some 5) (some 7)] [48, 54] = false := by decide
 example : isCanonDecimal [54] = true ∧ decVal [54] < 4294967296 ∧ matchRange [(5, 7)] [54] = true := by decide
 
-/-- finding "tick": the hypothesis of `escape_exact` is needed — the backtick is not escaped -/
-example : escape [96, 97] = [96, 97] ∧ (setPattern [96, 97]).regex = some [97] := by decide
+/-- finding "class": `[a,b]` is handed to regcomp as `[a|b]`, which contains `|` and not `,`; `[?]` as `[.]` -/
+example : translateLoop false [91, 97, 44, 98, 93] = [91, 97, 124, 98, 93] ∧
+          translateLoop false [91, 63, 93] = [91, 46, 93] := by decide
+example : clsHas false [.ch 97, .ch 44, .ch 98] 44 = true ∧ clsHas false [.ch 97, .ch 124, .ch 98] 44 = false := by decide
+/-- …whereas `[^0-1(]` goes through unchanged -/
+example : translateLoop false [91, 94, 48, 45, 49, 40, 93] = [91, 94, 48, 45, 49, 40, 93] := by decide
+
+/-- former finding "tick" (fixed in /repo): a leading backtick is escaped, so the pattern is not a raw regex -/
+example : escape [96, 97] = [92, 96, 97] ∧ (setPattern (escape [96, 97])).regex = some [94, 40, 96, 97, 41, 36] := by decide
 
 end Muscle.Props.C15
